@@ -34,7 +34,27 @@ driver's half of the protocol:
     ``down`` to that bit and stamps it into bit2 of the payload it sends - which is exactly what
     ``_send_packet_safe`` tests with ``(resp.data[0] & 0x04) == (self._curr_down << 2)``.
     Otherwise it re-sends the payload it sent last time.  With nothing queued it sends the null
-    packet ``f3|down<<2, 01, rssi`` (esb.c RSSI_ACK_PACKET), never a zero-length payload.
+    packet ``f3|down<<2, 01, rssi`` (esb.c RSSI_ACK_PACKET); a zero-length ack payload is offered as
+    an extra environment choice (firmware built without RSSI_ACK_PACKET / legacy peers).
+
+Oracle (checked at every choice point, i.e. whenever the driver is quiescent, and at every event):
+  uplink:*    (safelink confirmed) every frame the peer accepts as new is the next submitted packet
+              (duplicate / gap / corrupt), and the loop never asks for the next packet while a submitted
+              one has not been accepted (lost).
+  downlink:*  (safelink confirmed) non-null packets out of RadioDriver.receive_packet are the peer's
+              downlink packets, once each, in order; the peer never moves on while one is missing.
+  linkerr:*   link_error_callback fires exactly when the run of consecutive unacknowledged main-loop
+              transmissions reaches N (restarting at every ack), once; such states are terminal.
+  safelink:*  _has_safelink and (not link.needs_resending) hold iff a probe returned exactly ff 05 01.
+  hdr:*       safelink on: header bits 3/2 of each frame = thread's (_curr_up, _curr_down) and the rest of
+              the frame is the packet in hand; safelink off: the frame is the packet verbatim.
+  crash:*     run() must not die with an exception / return.
+  handoff:*   RadioDriver.send_packet returns True iff the bounded queue took the packet, otherwise False
+              with exactly one link error; FIFO order on both queues; receive_packet returns None when empty.
+Not demanded: anything after the radio object raises or returns None; delivery when safelink was not
+confirmed (the driver announces needs_resending=True); start-up probes do not count towards N; null
+packets (header & 0xf3 == 0xf3) are handed to the application by the driver and are ignored here;
+contents of RadioLinkStatistics; the waitTime/emptyCtr relaxation (recorded in the outcome only).
 """
 import array
 import dis
@@ -253,8 +273,6 @@ class _World:
         self.log('   !! %s: %s' % (sig, what))
 
     def choose(self, kind, options):
-        if self.viol and self.viol[0][0] < self.pos:
-            pass
         if self.pos >= len(self.hist):
             self.pending = (kind, tuple(options))
             self.state = self.capture(kind, options)
@@ -414,6 +432,16 @@ class _World:
                 self.events.append('null_accepted')
         else:
             self.events.append('uplink_retx_ignored')
+            if not self.echoed and (frame[0] & 0xf3) != 0xf3:
+                # half-open safelink (peer enabled it, every echo was lost, driver fell back): the peer
+                # takes every application frame (bits 3/2 always 1/1) for a retransmission.  Measured, not judged.
+                self.events.append('halfopen_app_frame_dropped')
+                # Judged: the statement promises delivery to a peer that supports safelink under any loss pattern.
+                self.bad('uplink:dropped_in_half_open_safelink',
+                         'the peer enabled safelink on a start-up probe whose echo was lost, the driver fell back to plain '
+                         'mode (needs_resending=True) and sends header bits 3/2 = 1/1 for ever: the peer takes every '
+                         'application frame for a retransmission, acknowledges it at radio level and drops it; no link '
+                         'error is reported')
         if advance:
             if self.p_sl:
                 self.p_down = b2
@@ -680,6 +708,8 @@ def _bfs(ck, cfg, max_depth):
             for name, pred in _SAMPLE_TAGS:          # samples are transitions (may lead to a known state)
                 if name not in sample_for and pred(outcome[0], kind, outcome[2]):
                     sample_for[name] = h2
+            if 'halfopen_app_frame_dropped' in outcome[2] and 'acked' in outcome[2]:
+                p.add('halfopen_safelink_acked_but_dropped_transitions')
             if key in seen:
                 continue
             seen.add(key)
@@ -717,70 +747,83 @@ class _TimeoutQueue(queue.Queue):
         return queue.Queue.get(self, False)
 
 
-def part_handoff(maxlen):
-    import itertools
+def _handoff_seq(p, seq, verbose=False):
+    """One op sequence on the real RadioDriver.send_packet / receive_packet over the bounded queues."""
     from cflib.crtp import radiodriver
     from cflib.crtp.crtpstack import CRTPPacket
+    link = radiodriver.RadioDriver()
+    link.in_queue = _TimeoutQueue()
+    link.out_queue = _TimeoutQueue(1)
+    link.in_queue.calls = []
+    link.out_queue.calls = []
+    errs = []
+    link.link_error_callback = errs.append
+    model_out, model_in = [], []
+    nsub = nput = 0
+    oc = []
+    rp = {'part': 'handoff', 'ops': list(seq)}
+    for i, op in enumerate(seq):
+        if op == 'send':
+            pk = CRTPPacket()
+            pk.set_header(2, 1)
+            pk.data = bytes([nsub & 0xff])
+            nsub += 1
+            e0 = len(errs)
+            r = link.send_packet(pk)
+            room = len(model_out) < 1
+            if room:
+                model_out.append(pk)
+            if verbose:
+                print('step %d send_packet(#%d) -> %r, link errors so far %r' % (i, nsub - 1, r, errs))
+            if r is not room or (len(errs) - e0) != (0 if room else 1):
+                p.violation('handoff:send_result', 'ops %r step %d: send_packet returned %r with %s queue, '
+                            '%d link errors reported' % (seq, i, r, 'free' if room else 'full',
+                                                         len(errs) - e0), rp)
+            if link.out_queue.calls[-1][:2] != ('put', True) or not link.out_queue.calls[-1][2]:
+                p.violation('handoff:send_timeout', 'send_packet used out_queue.put%r (must block with a timeout)' % (
+                    link.out_queue.calls[-1][1:],), rp)
+            oc.append('acc' if room else 'rej')
+        elif op == 'drv_get':
+            try:
+                g = queue.Queue.get(link.out_queue, False)
+            except queue.Empty:
+                g = None
+            exp = model_out.pop(0) if model_out else None
+            if verbose:
+                print('step %d radio loop dequeues %r' % (i, g and bytes(g.data)))
+            if g is not exp:
+                p.violation('handoff:out_order', 'ops %r step %d: radio loop dequeued %r, expected %r'
+                            % (seq, i, g and bytes(g.data), exp and bytes(exp.data)), rp)
+            oc.append('get' if exp else 'get_none')
+        elif op == 'drv_put':
+            pk = CRTPPacket(0x50, [nput & 0xff])
+            nput += 1
+            queue.Queue.put(link.in_queue, pk)
+            model_in.append(pk)
+            oc.append('put')
+        else:
+            if op == 'recv_block' and not model_in:
+                oc.append('skip')
+                continue          # would block for ever by contract
+            wait = {'recv0': 0, 'recv_t': 0.25, 'recv_block': -1}[op]
+            g = link.receive_packet(wait)
+            exp = model_in.pop(0) if model_in else None
+            if verbose:
+                print('step %d receive_packet(%r) -> %r' % (i, wait, g and bytes(g.data)))
+            if g is not exp:
+                p.violation('handoff:in_order', 'ops %r step %d: receive_packet(%r) returned %r, expected %r'
+                            % (seq, i, wait, g and bytes(g.data), exp and bytes(exp.data)), rp)
+            oc.append('rx' if exp else 'rx_none')
+    return oc, errs
+
+
+def part_handoff(maxlen):
+    import itertools
     p = Partial()
     ops = ('send', 'drv_get', 'drv_put', 'recv0', 'recv_t', 'recv_block')
     for n in range(1, maxlen + 1):
         for seq in itertools.product(ops, repeat=n):
-            link = radiodriver.RadioDriver()
-            link.in_queue = _TimeoutQueue()
-            link.out_queue = _TimeoutQueue(1)
-            link.in_queue.calls = []
-            link.out_queue.calls = []
-            errs = []
-            link.link_error_callback = errs.append
-            model_out, model_in = [], []
-            nsub = nput = 0
-            oc = []
-            rp = {'part': 'handoff', 'ops': list(seq)}
-            for i, op in enumerate(seq):
-                if op == 'send':
-                    pk = CRTPPacket()
-                    pk.set_header(2, 1)
-                    pk.data = bytes([nsub & 0xff])
-                    nsub += 1
-                    e0 = len(errs)
-                    r = link.send_packet(pk)
-                    room = len(model_out) < 1
-                    if room:
-                        model_out.append(pk)
-                    if r is not room or (len(errs) - e0) != (0 if room else 1):
-                        p.violation('handoff:send_result', 'ops %r step %d: send_packet returned %r with %s queue, '
-                                    '%d link errors reported' % (seq, i, r, 'free' if room else 'full',
-                                                                 len(errs) - e0), rp)
-                    if link.out_queue.calls[-1] != ('put', True, 2):
-                        p.violation('handoff:send_timeout', 'send_packet used out_queue.put%r' % (
-                            link.out_queue.calls[-1][1:],), rp)
-                    oc.append('acc' if room else 'rej')
-                elif op == 'drv_get':
-                    try:
-                        g = queue.Queue.get(link.out_queue, False)
-                    except queue.Empty:
-                        g = None
-                    exp = model_out.pop(0) if model_out else None
-                    if g is not exp:
-                        p.violation('handoff:out_order', 'ops %r step %d: radio loop dequeued %r, expected %r'
-                                    % (seq, i, g and bytes(g.data), exp and bytes(exp.data)), rp)
-                    oc.append('get' if exp else 'get_none')
-                elif op == 'drv_put':
-                    pk = CRTPPacket(0x50, [nput & 0xff])
-                    nput += 1
-                    queue.Queue.put(link.in_queue, pk)
-                    model_in.append(pk)
-                else:
-                    if op == 'recv_block' and not model_in:
-                        oc.append('skip')
-                        continue          # would block for ever by contract
-                    wait = {'recv0': 0, 'recv_t': 0.25, 'recv_block': -1}[op]
-                    g = link.receive_packet(wait)
-                    exp = model_in.pop(0) if model_in else None
-                    if g is not exp:
-                        p.violation('handoff:in_order', 'ops %r step %d: receive_packet(%r) returned %r, expected %r'
-                                    % (seq, i, wait, g and bytes(g.data), exp and bytes(exp.data)), rp)
-                    oc.append('rx' if exp else 'rx_none')
+            oc, errs = _handoff_seq(p, seq)
             p.case(key=('handoff', seq), outcome=('handoff', tuple(sorted(set(oc)))))
             if n == maxlen and seq[:3] == ('send', 'send', 'drv_get') and len(p.samples) < 1:
                 p.sample({'part': 'handoff', 'ops': list(seq), 'observed': oc, 'link_errors': errs})
@@ -895,7 +938,8 @@ def run(ck):
 
 def replay(ck, data):
     if data.get('part') == 'handoff':
-        print('hand-off op sequence %r: re-run the check (part_handoff enumerates it)' % (data['ops'],))
+        oc, errs = _handoff_seq(ck, tuple(data['ops']), verbose=True)
+        print('observed %r, link errors %r' % (oc, errs))
         return
     cfg = tuple(data['cfg'])
     hist = tuple(data['history'])
